@@ -387,7 +387,54 @@ static void __attribute__((noinline)) run_boxes(vh_rng* r, int nops) {
   vh_nontrivial();
 }
 
+/* ---------- assignment that re-types a sequence: the old elements are found with the OLD element size ----------
+** A sequence of 88-byte probe elements assigned from a sequence of 8-byte Ints (and back) changes its element type and
+** size.  Every old element is finalised exactly once on the way, the new ones are the target's own (deep). */
+static void retyping_assigns(vh_rng* r) {
+  for (int round = 0; round < 4; round++) {
+    int tk = (int)vh_below(r, 2), sk = (int)vh_below(r, 2), pk = (int)vh_below(r, 2);
+    int n1 = (int)vh_below(r, 7), n2 = (int)vh_below(r, 7), n3 = (int)vh_below(r, 7);
+    if (round == 0 && n1 < 2) { n1 = 2 + (int)vh_below(r, 5); }
+    var a = tk ? (var)new(List, PElem) : (var)new(Array, PElem);
+    var b = sk ? (var)new(List, Int) : (var)new(Array, Int);
+    var c = pk ? (var)new(List, PElem) : (var)new(Array, PElem);
+    int64_t live0 = pe.live;
+    for (int i = 0; i < n1; i++) { push(a, PE_KEY(100 + i, 0)); }
+    for (int i = 0; i < n2; i++) { push(b, $I(200 + i)); }
+    for (int i = 0; i < n3; i++) { push(c, PE_KEY(300 + i, 0)); }
+    vh_op("%s<PElem>[%d] <- %s<Int>[%d] <- %s<PElem>[%d]", tk ? "List" : "Array", n1, sk ? "List" : "Array", n2, pk ? "List" : "Array", n3);
+    vh_evals(6);
+    if (pe.live != live0 + n1 + n3) { vh_violation("C05:retyping-assign:live-count", "after filling: %" PRId64 " live elements, expected %" PRId64, pe.live, live0 + n1 + n3); }
+    var exc = NULL;
+    VH_CATCH(assign(a, b), exc);
+    if (exc) { vh_violation("C05:retyping-assign:raised", "assign(%s of %d probe elements, %s of %d Ints) raised %s", tk ? "List" : "Array", n1, sk ? "List" : "Array", n2, vh_exc_name(exc)); return; }
+    if (pe.live != live0 + n3) {
+      vh_violation("C05:retyping-assign:old-elements-not-finalised-exactly-once", "assign over %d probe elements from %d Ints: %" PRId64 " live elements, expected %" PRId64 " (the %d old ones finalised once each)", n1, n2, pe.live, live0 + n3, n1);
+    }
+    int ok = len(a) == (size_t)n2;
+    for (int i = 0; ok && i < n2; i++) { var x = get(a, $I(i)); if (type_of(x) != Int || c_int(x) != 200 + i) { ok = 0; } }
+    if (!ok) { vh_violation("C05:retyping-assign:wrong-contents", "the target does not hold the %d Ints of the source", n2); }
+    /* and back: Ints replaced by probe elements, which are the target's own copies */
+    VH_CATCH(assign(a, c), exc);
+    if (exc) { vh_violation("C05:retyping-assign:raised", "assign(sequence of %d Ints, sequence of %d probe elements) raised %s", n2, n3, vh_exc_name(exc)); return; }
+    if (pe.live != live0 + 2 * n3) { vh_violation("C05:retyping-assign:copies-not-deep", "assign of %d probe elements over %d Ints: %" PRId64 " live elements, expected %" PRId64, n3, n2, pe.live, live0 + 2 * n3); }
+    ok = len(a) == (size_t)n3;
+    for (int i = 0; ok && i < n3; i++) { struct PElem* x = get(a, $I(i)); struct PElem* y = get(c, $I(i)); if (type_of(x) != PElem || x->id != 300 + i || !pe_is_live(x) || x->token == y->token) { ok = 0; } }
+    if (!ok) { vh_violation("C05:retyping-assign:wrong-contents", "the target does not hold its own live copies of the %d probe elements", n3); }
+    del(c);
+    if (pe.live != live0 + n3) { vh_violation("C05:retyping-assign:copies-not-deep", "deleting the source changed the live count to %" PRId64 ", expected %" PRId64, pe.live, live0 + n3); }
+    ok = len(a) == (size_t)n3;
+    for (int i = 0; ok && i < n3; i++) { struct PElem* x = get(a, $I(i)); if (x->id != 300 + i || !pe_is_live(x)) { ok = 0; } }
+    if (!ok) { vh_violation("C05:retyping-assign:copies-not-deep", "deleting the source damaged the target's elements"); }
+    del(a); del(b);
+    if (pe.live != live0) { vh_violation("C05:retyping-assign:live-count", "after deleting everything: %" PRId64 " live elements, expected %" PRId64, pe.live, live0); }
+    vh_count("retyping_assigns");
+    if (n1 >= 2) { vh_count("retyping_assigns_over_two_or_more_elements"); }
+  }
+}
+
 static void case_random(vh_rng* r, long index) {
+  retyping_assigns(r);
   if (index % 4 == 3) { run_boxes(r, 40 + (int)vh_below(r, 120)); return; }
   int nops = 40 + (int)vh_below(r, vh.thorough ? 500 : 160);
   run_world(r, nops, index % 4 == 1);
@@ -400,6 +447,8 @@ static void fixed(void) {
   run_world(&r, 400, 1);
   vh.oplen = 0; vh.oplog[0] = 0; vh.nops = 0;
   run_boxes(&r, 200);
+  vh.oplen = 0; vh.oplog[0] = 0; vh.nops = 0;
+  for (int i = 0; i < 20; i++) { retyping_assigns(&r); }
 }
 
 int main(int argc, char** argv) {
